@@ -7,7 +7,8 @@ import ftutil as U
 
 ID = "C19"
 THEOREMS = ["C19_two_finger", "C19_skip_ahead", "C19_leader_follower", "C19_batching",
-            "C19_presented_rows", "C19_swaps_rounds_partial", "C19_swaps_merge_partial",
+            "C19_presented_rows", "C19_swaps_tree", "C19_swaps_rounds", "C19_swaps_merge",
+            "C19_swaps_values", "C19_merge_unbounded", "C19_swaps_unbounded", "C19_swaps_unbounded_defined",
             "C19_model_meets_spec"]
 COQ_IMPORTS = ("From FT Require Import Model.Base Model.Obs Model.C19Intersect Model.C19Compute "
                "Model.C19Check.")
@@ -36,11 +37,14 @@ ASSUMPTIONS = ["operand coordinate lists strictly increasing (Fiber invariant, p
                "a fiber yields increasing coordinates), all at the same depth; traces are consumed only "
                "between whole intersections and not before the first one",
                "leaf default 0, compressed format; radix >= 2 (radix 1 never terminates in the implementation)",
-               "bisect.bisect_right is modelled by a linear scan (equal on the sorted head list)"]
+               "bisect.bisect_right is modelled by a linear scan (equal on the sorted head list)",
+               "swap tensors have exactly depth+2 ranks"]
 EXPLANATION = ("theorems: for every loop nest and every batching the fixed two-finger / skip-ahead / "
                "leader-follower models, run on the modelled trace rows, return the merge-step count / runs+matches "
-               "/ presented elements of the raw coordinate lists; integer-latency swap count = closed form over "
-               "list and element counts; oracle = those reference quantities evaluated on the implementation's totals")
+               "/ presented elements of the raw coordinate lists; integer-latency numSwaps = closed form over list and "
+               "element counts per merge round (whole tensor); unbounded-latency numSwaps = register-bag reference "
+               "(1 + number of greater waiting fronts per entering element); numSwaps independent of payload values; "
+               "oracle = those reference quantities evaluated on the implementation's totals")
 
 
 # ------------------------------------------------------------------ generators
@@ -136,6 +140,7 @@ def streams(tier, rng):
     n = 330 if tier == "quick" else 6000
     m = 150 if tier == "quick" else 3000
     yield ("witness-S19", [WITNESS_S19_TAIL, WITNESS_S19_EMPTY], False)
+    yield ("witness-swaps", WITNESS_SWAPS, False)
     yield ("intersect", [gen_I(rng) for _ in range(n)], False)
     yield ("swaps", [gen_S(rng) for _ in range(m)], False)
     if tier == "thorough":
@@ -150,6 +155,18 @@ WITNESS_S19_TAIL = {"kind": "I", "scheds": [[1, 1], [2]],
 WITNESS_S19_EMPTY = {"kind": "I", "scheds": [[1, 1], [2]],
                      "fibers": [[[0], [], [[3, 1], [5, 1]]],
                                 [[2], [[0, 1], [4, 1]], [[0, 1], [4, 1]]]]}
+
+
+# the tensors of test/test_compute.py (hand-computed totals 24, 63, 15) plus a two-round unbounded-latency merge
+_T3 = [[0, [[1, 1], [3, 1], [5, 1]]], [1, [[0, 1], [2, 1], [3, 1]]], [2, [[1, 1], [4, 1]]]]
+_T3b = [[0, [[1, 1], [3, 1], [5, 1]]], [1, [[1, 1], [2, 1], [3, 1]]], [2, [[0, 1], [4, 1]]]]
+WITNESS_SWAPS = [
+    {"kind": "S", "t": _T3b[:2], "u": _T3b[:2], "depth": 0, "radix": 100, "lat": 3},
+    {"kind": "S", "t": _T3b, "u": _T3b, "depth": 0, "radix": 2, "lat": 3},
+    {"kind": "S", "t": _T3, "u": _T3, "depth": 0, "radix": None, "lat": None},
+    {"kind": "S", "t": _T3 + [[5, [[2, 7], [3, 0], [9, 2]]]], "u": _T3 + [[5, [[2, 1], [3, 0], [9, 1]]]],
+     "depth": 0, "radix": 2, "lat": None},
+]
 
 
 def occ(f):
